@@ -257,7 +257,7 @@ def section_olson_series(rep, k_lat, k_alt, mutate=None):
     lat = S.declare_angle('lat', 1, 89)
     h = S.var('alt')
     S.C.dom += [z3.Real('alt') >= -10000, z3.Real('alt') <= 4e7]
-    ex = paths.Exec(S.C.dom + [S.DEG > S.rat(S.DEG_LO), S.DEG < S.rat(S.DEG_HI)], timeout_ms=90000)
+    ex = paths.Exec(S.C.dom + [S.DEG > S.rat(S.DEG_LO), S.DEG < S.rat(S.DEG_HI)], timeout_ms=10000)
     orig = ex.decide
 
     def decide(cond):
